@@ -435,6 +435,9 @@ pub enum Container {
     VcfGz,
     Bcf,
     RawBcf,
+    /// BCF whose magic string names minor version 1 (BCF2.1, still written by older tools)
+    BcfMinor1,
+    RawBcfMinor1,
 }
 
 impl Container {
@@ -444,6 +447,8 @@ impl Container {
             Container::VcfGz => "vcf.gz",
             Container::Bcf => "bcf",
             Container::RawBcf => "raw-bcf",
+            Container::BcfMinor1 => "bcf-2.1",
+            Container::RawBcfMinor1 => "raw-bcf-2.1",
         }
     }
     pub fn suffix(self) -> &'static str {
@@ -452,13 +457,19 @@ impl Container {
             Container::VcfGz => ".vcf.gz",
             Container::Bcf => ".bcf",
             Container::RawBcf => ".raw.bcf",
+            Container::BcfMinor1 => ".bcf",
+            Container::RawBcfMinor1 => ".raw.bcf",
         }
     }
     pub fn all() -> [Container; 4] {
         [Container::Vcf, Container::VcfGz, Container::Bcf, Container::RawBcf]
     }
+    /// `all()` and the two BCF containers with the older minor version in the magic string.
+    pub fn all_with_versions() -> [Container; 6] {
+        [Container::Vcf, Container::VcfGz, Container::Bcf, Container::RawBcf, Container::BcfMinor1, Container::RawBcfMinor1]
+    }
     pub fn compressed(self) -> bool {
-        matches!(self, Container::VcfGz | Container::Bcf)
+        matches!(self, Container::VcfGz | Container::Bcf | Container::BcfMinor1)
     }
 }
 
@@ -472,6 +483,16 @@ pub fn render(cs: &CallSet, c: Container, layout: &Layout) -> Vec<u8> {
         Container::RawBcf => to_bcf(cs).0,
         Container::Bcf => {
             let (d, b) = to_bcf(cs);
+            bgzf(&d, &b, layout)
+        }
+        Container::RawBcfMinor1 => {
+            let mut d = to_bcf(cs).0;
+            d[4] = 1;
+            d
+        }
+        Container::BcfMinor1 => {
+            let (mut d, b) = to_bcf(cs);
+            d[4] = 1;
             bgzf(&d, &b, layout)
         }
     }
